@@ -703,7 +703,7 @@ SPECIAL_TOKENS = ["nan", "inf", "-inf", "NaN", "1e400", "-1e400", "1e-400", "-0"
                   "-9223372036854775809", "18446744073709551616", "99999999999999999999999999999999", "", "0x10",
                   "1.0D+03", "12abc", "1e", "+", "-", ".", "1.5", "0.5", "1e-16", "1e16", "#", "Block", "Q="]
 HEADER_WORDS = ["Blok", "BLOCKK", "Bloc k", "block", "BLOCK", "bLoCk", "DECAY", "decay", "Block#", "#Block", ""]
-SCALE_GARBAGE = ["Q=", "Q= ", "Q= nan", "Q= inf", "Q= 1e400", "Q= abc", "Q= -1", "Q= 0", "Q=1e3", "Q= 1e3 1e3",
+SCALE_GARBAGE = ["Q=", "Q=", "Q= # cut off", "Q= ", "Q= nan", "Q= inf", "Q= 1e400", "Q= abc", "Q= -1", "Q= 0", "Q=1e3", "Q= 1e3 1e3",
                  "q= 1000", "Q = 1000", "Q= 1.00000000E+03", "Q= 9.11876000E+01", "Q= 1e300", "Q= -0"]
 BLOCK_NAMES = ["GM2CalcConfig", "GM2CalcInput", "SMINPUTS", "MASS", "NMIX", "SMUMIX", "HMIX", "MSOFT", "AE", "AU",
                "AD", "MINPAR", "VCKMIN", "GM2CalcTHDMDeltauInput", "GM2CalcTHDMDeltadInput",
@@ -831,7 +831,7 @@ def op_st(draw, semantic):
     """one mutation: a tuple (name, params...) of plain values"""
     names = ["tok", "tok", "set", "set", "rel", "cfg", "cfg", "matrix", "yukawa", "intfield"]
     if not semantic:
-        names += ["tok", "dup", "del", "trunc", "hdr", "hdr", "scale", "bytes", "bytes", "crlf", "noeol",
+        names += ["tok", "dup", "del", "trunc", "hdr", "hdr", "scale", "scale", "bytes", "bytes", "crlf", "noeol",
                   "append", "swap", "longline", "intfield"]
     name = draw(st.sampled_from(names))
     i1, i2 = draw(st.integers(0, 10 ** 6)), draw(st.integers(0, 10 ** 6))
@@ -998,8 +998,14 @@ def apply_op(lines, op, natural):
                 lines[i] = lines[i] + " " + op[3] + " " + op[4]
     elif name == "scale":
         idx = header_indices(lines)
+        # two times out of three a header whose scale the reader actually looks at (HMIX defines it, the others
+        # are matched against it); otherwise any header
+        scaled = [i for i in idx if len(line_fields(lines[i])[0]) > 1 and
+                  line_fields(lines[i])[0][1].upper() in ("HMIX", "MSOFT", "AU", "AD", "AE")]
+        if scaled and op[1] % 3:
+            idx = scaled
         if idx:
-            i = idx[op[1] % len(idx)]
+            i = idx[(op[1] // 3) % len(idx)]
             f, _ = line_fields(lines[i])
             lines[i] = " ".join(f[:2]) + " " + op[2]
     elif name == "bytes":
